@@ -1,6 +1,7 @@
 import RisorModel.Util
 import RisorModel.C10.Model
 import RisorModel.C10.ModelExt
+import RisorModel.C10.ModelCall
 /-!
 Line-protocol front end of the C10 model (requests after the leading `C10` field).
 
@@ -30,6 +31,10 @@ Line-protocol front end of the C10 model (requests after the leading `C10` field
        mop    := im:t:m (thread t imports module m) | ca:t:m:x (thread t calls m.bump(x)) | sp:p | fin:t | w:w:t
        obs    := B | u | ran | v:r | P (the call faulted) | sp:t | r:v.v.v (wait: the results) | perr (wait: the thread's panic error)
        thread := t:(a|run|ret|pan):v.v.v         cnt = counter of modules 0..3
+  callnet <cop,cop,…>                 → <thread;thread;…> TAB <wait obs,…>        (calls, frames and deferred calls of every thread; thread 0 = the main program's direct call)
+       cop    := sp:p | w:w:t | o:t:S      S := c (call) | t (call under try) | de:k | df:k (defer an effect | an effect and a raised error) | e:k (effect) | r:v (return) | x:k (raise)
+       thread := t:<effects k.k.k | ->:(run | v<n> | e<n>):reg:ran:<frames active>
+       wait obs := B | v<n> | e<n>
 -/
 namespace Risor.C10
 open Risor.Util
@@ -213,6 +218,33 @@ def mfinal (s : Mods) : List MOp → Mods
     | some (s', _) => mfinal s' os
     | none => mfinal s os
 
+def parseCNOp (s : String) : Option CNOp :=
+  match s.splitOn ":" with
+  | ["sp", p] => do pure (.sp (← natOf p))
+  | ["w", w, t] => do pure (.wait (← natOf w) (← natOf t))
+  | ["o", t, "c"] => do pure (.op (← natOf t) .call)
+  | ["o", t, "t"] => do pure (.op (← natOf t) .tcall)
+  | ["o", t, "de", k] => do pure (.op (← natOf t) (.defer (.emit (← natOf k))))
+  | ["o", t, "df", k] => do pure (.op (← natOf t) (.defer (.fail (← natOf k))))
+  | ["o", t, "e", k] => do pure (.op (← natOf t) (.emit (← natOf k)))
+  | ["o", t, "r", v] => do pure (.op (← natOf t) (.ret (← natOf v)))
+  | ["o", t, "x", k] => do pure (.op (← natOf t) (.raise (← natOf k)))
+  | _ => none
+
+def showCOut : Option COutcome → String
+  | none => "run"
+  | some (.val v) => "v" ++ toString v
+  | some (.err k) => "e" ++ toString k
+
+def cnWaits (s : CNet) : List CNOp → List String
+  | [] => []
+  | o :: rest =>
+    let s' := cnstep s o
+    match o with
+    | .wait w t =>
+      (if w < s.n then (match waitObs s t with | none => "B" | some r => showCOut (some r)) else "B") :: cnWaits s' rest
+    | _ => cnWaits s' rest
+
 def handle : List String → String
   | ["chanops", cap, ops] =>
     match natOf cap, (listOf "," ops).mapM parseOp with
@@ -284,6 +316,16 @@ def handle : List String → String
       joinC ((mtrace mstep {} ops).map showMObs) ++ "\t" ++ joinC ((mtrace mspecStep {} ops).map showMObs) ++ "\t"
         ++ joinC ((knownTrace {} ops).map b01) ++ "\t" ++ ";".intercalate threads ++ "\t"
         ++ joinC ((List.range 4).map fun m => toString (sf.cnt m))
+    | none => "error\tbad-request"
+  | ["callnet", ops] =>
+    match (listOf "," ops).mapM parseCNOp with
+    | some ops =>
+      let sf := cnrun {} ops
+      let threads := (List.range sf.n).map fun t =>
+        let c := sf.th t
+        toString t ++ ":" ++ (if c.log.isEmpty then "-" else ".".intercalate (c.log.map toString)) ++ ":" ++ showCOut c.out ++ ":"
+          ++ toString c.reg ++ ":" ++ toString c.ran ++ ":" ++ toString c.frames.length
+      ";".intercalate threads ++ "\t" ++ joinC (cnWaits {} ops)
     | none => "error\tbad-request"
   | _ => "error\tunknown-request"
 
